@@ -241,6 +241,65 @@ fn binary_comb<T: Scalar>(kind: Kind, a: &Spec, b: &Spec, alpha: &[f64], depth: 
     );
 }
 
+/// A few statically typed chains (no `Dyn` in between): the harness's type erasure forwards only
+/// `update` and `last`, so a wrapper that obtained something from its inner view through any other
+/// trait method would go unnoticed behind it. Every sequence over Z3 of length <= 7 and every cycle
+/// over non-representable letters (48 updates).
+fn static_chains(st: &mut Stats, sink: &Sink) {
+    use sliding_features::pure_functions::Echo;
+    use sliding_features::rolling::{LnReturn, WelfordRolling};
+    use sliding_features::sliding_windows::*;
+    let mut drivers: Vec<Vec<f64>> = crate::explore::sequences(&Z3, 7);
+    for cyc in crate::explore::cycles(&[0.1, 0.7, -3.3], 3) {
+        drivers.push((0..48).map(|i| cyc[i % cyc.len()]).collect());
+    }
+    macro_rules! chain {
+        ($name:expr, $chain:expr, $a:expr, $b:expr) => {{
+            st.configs += 1;
+            'drv: for h in &drivers {
+                let (mut chain, mut a, mut b) = ($chain, $a, $b);
+                for (i, x) in h.iter().enumerate() {
+                    let r = guard(|| {
+                        chain.update(*x);
+                        a.update(*x);
+                        if let Some(y) = a.last() {
+                            b.update(y);
+                        }
+                        (chain.last(), b.last())
+                    });
+                    st.transitions += 3;
+                    st.oracle_evals += 1;
+                    match r {
+                        Ok((c, d)) => {
+                            if !opt_same::<f64>(c, d) {
+                                sink.push(Violation::new("C01", &Spec::echo(), "chain-vs-decomposition", "f64", &h[..=i], format!("statically typed chain {}: the chain reports {} but its stand-alone parts report {}", $name, opt_key(c), opt_key(d))));
+                                break 'drv;
+                            }
+                        }
+                        Err(_) => continue 'drv,
+                    }
+                }
+                st.traces += 1;
+            }
+        }};
+    }
+    let e = Echo::<f64>::new;
+    chain!("Sma(Ema(Echo,2),3)", Sma::new(Ema::new(e(), 2), 3), Ema::new(e(), 2), Sma::new(e(), 3));
+    chain!("Ema(Sma(Echo,3),2)", Ema::new(Sma::new(e(), 3), 2), Sma::new(e(), 3), Ema::new(e(), 2));
+    chain!("Vst(Sma(Echo,2),3)", Vst::new(Sma::new(e(), 2), 3), Sma::new(e(), 2), Vst::new(e(), 3));
+    chain!("Vsct(Ema(Echo,3),2)", Vsct::new(Ema::new(e(), 3), 2), Ema::new(e(), 3), Vsct::new(e(), 2));
+    chain!("Rsi(Roc(Echo,2),3)", Rsi::new(Roc::new(e(), 2), 3), Roc::new(e(), 2), Rsi::new(e(), 3));
+    chain!("MyRSI(Sma(Echo,2),3)", MyRSI::new(Sma::new(e(), 2), 3), Sma::new(e(), 2), MyRSI::new(e(), 3));
+    chain!("HLNormalizer(Sma(Echo,2),3)", HLNormalizer::new(Sma::new(e(), 2), 3), Sma::new(e(), 2), HLNormalizer::new(e(), 3));
+    chain!("SuperSmoother(HLNormalizer(Ema(Echo,2),2),2)", SuperSmoother::new(HLNormalizer::new(Ema::new(e(), 2), 2), 2), Ema::new(e(), 2), SuperSmoother::new(HLNormalizer::new(e(), 2), 2));
+    chain!("RoofingFilter(Sma(Echo,2),3,2)", RoofingFilter::new(Sma::new(e(), 2), 3, 2), Sma::new(e(), 2), RoofingFilter::new(e(), 3, 2));
+    chain!("WelfordRolling(Sma(Echo,3))", WelfordRolling::new(Sma::new(e(), 3)), Sma::new(e(), 3), WelfordRolling::new(e()));
+    chain!("Cumulative(Min(Echo,2),3)", Cumulative::new(Min::new(e(), 2), 3), Min::new(e(), 2), Cumulative::new(e(), 3));
+    chain!("LnReturn(Cumulative(Echo,3))", LnReturn::new(Cumulative::new(e(), 3)), Cumulative::new(e(), 3), LnReturn::new(e()));
+    chain!("TrendFlex(Ema(Echo,2),3)", TrendFlex::new(Ema::new(e(), 2), 3), Ema::new(e(), 2), TrendFlex::new(e(), 3));
+    chain!("NoiseEliminationTechnology(MyRSI(Echo,3),3)", NoiseEliminationTechnology::new(MyRSI::new(e(), 3), 3), MyRSI::new(e(), 3), NoiseEliminationTechnology::new(e(), 3));
+}
+
 pub fn run(ctx: &Ctx) -> CheckOutput {
     let quick = ctx.tier == Tier::Quick;
     let (outer_ns, inner_ns, depth): (Vec<usize>, Vec<usize>, usize) = if quick { (vec![1, 2, 3, 4], vec![1, 2, 3], 7) } else { (vec![1, 2, 3, 4, 5, 6], vec![1, 2, 3, 4], 9) };
@@ -309,6 +368,12 @@ pub fn run(ctx: &Ctx) -> CheckOutput {
             }));
         }
     }
+    jobs.push(Box::new(move || {
+        let mut st = Stats::default();
+        let sink = Sink::new();
+        static_chains(&mut st, &sink);
+        JobOut { stats: st, viols: sink.take(), samples: vec![json!({"explorer":"TREE+LONG","clause":"14 statically typed chains (no type erasure)","drivers":"Z3^7 and every cycle over {0.1,0.7,-3.3} of period<=3"})] }
+    }));
     // binary combinators over every ordered pair
     let pool = inners(2);
     for k in BINARY {
